@@ -88,7 +88,9 @@ c.finish(
     partial=[
         "g4_rt_all (Group 4 / two-dimensional coding, whole images) is stated as a Definition; proved parts: "
         "g4_full_run_rt, full_run_complete_iff, full_run_bound (horizontal-mode run decoder with the iteration bound taken "
-        "from the Go source), ccitt_mode_table; the executable model coq/C06/CCITT2D.v carries the rest by correspondence "
+        "from the Go source), ccitt_mode_table, g4_row_sync_partial (decoder stays in step with the encoder through the "
+        "pass/vertical/horizontal codes of a row and consumes exactly its bits; missing: painted pixels = row, rows/EOFB/"
+        "alignment bookkeeping); the executable model coq/C06/CCITT2D.v carries the rest by correspondence "
         "(cross round trip and damaged code streams for K < 0); K > 0 (mixed) is tested on the implementation only",
     ],
 )
